@@ -114,6 +114,14 @@ SemDropWaiter(t) ==
 (* helpers                                                                 *)
 
 Goto(t, l) == pc' = [pc EXCEPT ![t] = l]
+
+\* Scheduling: at thread level every segment is a unit; at task level a task keeps the
+\* processor until it yields (operation finished, waiting for a permit, call pending).
+\* Last conjunct of every task action (pc' and susp' are determined by then).
+Yielded(t) == pc'[t] = "idle" \/ pc'[t] = "g_wait" \/ susp'[t]
+Sched(t) ==
+  /\ running \in {NoTask, t}
+  /\ running' = IF ThreadLevel \/ Yielded(t) THEN NoTask ELSE t
 SetRes(t, r) == res' = [res EXCEPT ![t] = r]
 
 Spend == budget > 0 /\ budget' = budget - 1
@@ -150,6 +158,7 @@ StartGet(t, m) ==
   /\ Goto(t, "g_users") /\ mode' = [mode EXCEPT ![t] = m] /\ SetRes(t, "none")
   /\ late' = [late EXCEPT ![t] = closeRet]
   /\ UNCHANGED <<sem, slots, users, obj, arg, cnt, susp, chain, ov, held, nextObj, alive, det, taken, ho, orphan, poolGone, closeRet, panicked>>
+  /\ Sched(t)
 
 \* users.fetch_add; then the per-call recycle timeout is checked against the runtime
 GUsers(t) ==
@@ -158,6 +167,7 @@ GUsers(t) ==
      THEN Goto(t, "x_users") /\ SetRes(t, "no_runtime")
      ELSE Goto(t, "g_acq") /\ UNCHANGED res
   /\ UNCHANGED <<sem, slots, obj, mode, arg, cnt, susp, chain, ov, gv>>
+  /\ Sched(t)
 
 \* try_acquire() (non-blocking) or first poll of acquire()
 GAcq(t) ==
@@ -172,6 +182,7 @@ GAcq(t) ==
      THEN Goto(t, "x_users") /\ SetRes(t, "timeout_wait") /\ UNCHANGED sem
      ELSE waitq' = Append(waitq, t) /\ Goto(t, "g_wait") /\ UNCHANGED <<res, permits, closed, handed>>
   /\ UNCHANGED <<slots, users, obj, mode, arg, cnt, susp, chain, ov, gv>>
+  /\ Sched(t)
 
 \* the waiter was woken (permit assigned, or semaphore closed) and is polled again
 GWaitPoll(t) ==
@@ -180,12 +191,14 @@ GWaitPoll(t) ==
      THEN /\ SemDropWaiter(t) /\ Goto(t, "x_users") /\ SetRes(t, "closed")
      ELSE /\ handed' = handed \ {t} /\ Goto(t, "g_pop") /\ UNCHANGED <<res, permits, closed, waitq>>
   /\ UNCHANGED <<slots, users, obj, mode, arg, cnt, susp, chain, ov, gv>>
+  /\ Sched(t)
 
 \* the get() future is dropped while waiting for a permit
 GWaitCancel(t) ==
   /\ AllowCancel /\ pc[t] = "g_wait"
   /\ SemDropWaiter(t) /\ Goto(t, "x_users") /\ SetRes(t, "cancelled")
   /\ UNCHANGED <<slots, users, obj, mode, arg, cnt, susp, chain, ov, gv>>
+  /\ Sched(t)
 
 \* the wait deadline passes and the future is polled: tokio's timeout polls the
 \* acquire first, so this is only a timeout if no permit has been assigned
@@ -193,6 +206,7 @@ GWaitExpire(t) ==
   /\ pc[t] = "g_wait" /\ mode[t] = "timed" /\ t \notin handed /\ ~closed
   /\ SemDropWaiter(t) /\ Goto(t, "x_users") /\ SetRes(t, "timeout_wait")
   /\ UNCHANGED <<slots, users, obj, mode, arg, cnt, susp, chain, ov, gv>>
+  /\ Sched(t)
 
 \* lock; pop an idle object, or reserve a slot for a new one, or find the permit stale
 GPop(t) ==
@@ -213,6 +227,7 @@ GPop(t) ==
           /\ Goto(t, "g_acq") /\ UNCHANGED <<idle, obj, cnt, creating, res>>
   /\ chain' = [chain EXCEPT ![t] = <<>>]
   /\ UNCHANGED <<sem, size, maxSize, lock, users, mode, arg, susp, ov, gv>>
+  /\ Sched(t)
 
 \* --- manager / hook calls ------------------------------------------------
 \* The object in hand passed the call at pc[t]: move to the next stage, or complete.
@@ -259,6 +274,7 @@ Call(t, out) ==
        [] out = "ok" /\ pc[t] # "create" -> Advance(t) /\ UNCHANGED <<susp, obj, nextObj, alive>>
        [] OTHER -> Fail(t, out) /\ UNCHANGED <<susp, obj, nextObj, alive>>
   /\ UNCHANGED <<sem, slots, users, mode, arg, held, det, taken, ho, orphan, late, budget, poolGone, closeRet, panicked>>
+  /\ Sched(t)
 
 \* a suspended call completes and the future is polled again
 Resume(t, out) ==
@@ -268,12 +284,14 @@ Resume(t, out) ==
        [] out = "ok" /\ pc[t] # "create" -> Advance(t) /\ UNCHANGED <<obj, nextObj, alive>>
        [] OTHER -> Fail(t, out) /\ UNCHANGED <<obj, nextObj, alive>>
   /\ UNCHANGED <<sem, slots, users, mode, arg, held, det, taken, ho, orphan, late, budget, poolGone, closeRet, panicked>>
+  /\ Sched(t)
 
 \* the get() future is dropped while a call is suspended
 Cancel(t) ==
   /\ AllowCancel /\ susp[t]
   /\ susp' = [susp EXCEPT ![t] = FALSE] /\ Fail(t, "cancelled")
   /\ UNCHANGED <<sem, slots, users, obj, mode, arg, gv>>
+  /\ Sched(t)
 
 \* the create / recycle deadline passes while the call is suspended
 Expire(t) ==
@@ -282,6 +300,7 @@ Expire(t) ==
      \/ pc[t] = "recycle" /\ RecycleTO = "finite" /\ Fail(t, "timeout_recycle")
   /\ susp' = [susp EXCEPT ![t] = FALSE]
   /\ UNCHANGED <<sem, slots, users, obj, mode, arg, gv>>
+  /\ Sched(t)
 
 \* lock; creating -= 1; size += 1; unlock
 CSize(t) ==
@@ -292,6 +311,7 @@ CSize(t) ==
      THEN Goto(t, "g_exit") /\ SetRes(t, "ok") /\ UNCHANGED cnt
      ELSE Goto(t, "pcreate") /\ cnt' = [cnt EXCEPT ![t] = 1] /\ UNCHANGED res
   /\ UNCHANGED <<sem, idle, maxSize, lock, users, obj, mode, arg, susp, chain, ov, held, nextObj, alive, det, taken, ho, orphan, late, budget, poolGone, closeRet>>
+  /\ Sched(t)
 
 \* reservation guard: lock; creating -= 1; unlock
 CUnres(t) ==
@@ -299,6 +319,7 @@ CUnres(t) ==
   /\ creating' = creating - 1 /\ panicked' = (panicked \/ creating = 0)
   /\ Goto(t, "g_exit")
   /\ UNCHANGED <<sem, idle, size, maxSize, lock, users, obj, mode, arg, cnt, susp, res, chain, ov, held, nextObj, alive, det, taken, ho, orphan, late, budget, poolGone, closeRet>>
+  /\ Sched(t)
 
 \* UnreadyObject::drop: lock; size -= 1; unlock; Manager::detach; object destroyed
 UDrop(t) ==
@@ -307,6 +328,7 @@ UDrop(t) ==
   /\ LetGo({obj[t]}) /\ obj' = [obj EXCEPT ![t] = NoObj]
   /\ Goto(t, IF res[t] = "none" THEN "g_pop" ELSE "g_exit")
   /\ UNCHANGED <<sem, idle, creating, maxSize, lock, users, mode, arg, cnt, susp, res, chain, ov, held, nextObj, taken, ho, orphan, late, budget, poolGone, closeRet>>
+  /\ Sched(t)
 
 \* leaving the acquisition loop: hand the object out, or drop the permit
 GExit(t) ==
@@ -316,12 +338,14 @@ GExit(t) ==
           /\ obj' = [obj EXCEPT ![t] = NoObj] /\ Goto(t, "idle") /\ UNCHANGED sem
      ELSE /\ SemRelease(1) /\ Goto(t, "x_users") /\ UNCHANGED <<held, ho, orphan, late, obj>>
   /\ UNCHANGED <<slots, users, mode, arg, cnt, susp, res, chain, ov, nextObj, alive, det, taken, orphan, late, budget, poolGone, closeRet, panicked>>
+  /\ Sched(t)
 
 \* users_guard: users.fetch_sub
 XUsers(t) ==
   /\ pc[t] = "x_users" /\ users' = users - 1 /\ panicked' = (panicked \/ users = 0)
   /\ Goto(t, "idle")
   /\ UNCHANGED <<sem, slots, obj, mode, arg, cnt, susp, res, chain, ov, held, nextObj, alive, det, taken, ho, orphan, late, budget, poolGone, closeRet>>
+  /\ Sched(t)
 
 ----------------------------------------------------------------------------
 (* returning an object (Object::drop -> return_object)                     *)
@@ -335,11 +359,13 @@ StartReturn(t, o) ==
      ELSE /\ obj' = [obj EXCEPT ![t] = o] /\ Goto(t, "ret_users") /\ UNCHANGED <<alive, orphan>>
   /\ SetRes(t, "none")
   /\ UNCHANGED <<sem, slots, users, mode, arg, cnt, susp, chain, ov, nextObj, det, taken, ho, late, budget, poolGone, closeRet, panicked>>
+  /\ Sched(t)
 
 RetUsers(t) ==
   /\ pc[t] = "ret_users" /\ users' = users - 1 /\ panicked' = (panicked \/ users = 0)
   /\ Goto(t, "ret_lock")
   /\ UNCHANGED <<sem, slots, obj, mode, arg, cnt, susp, res, chain, ov, held, nextObj, alive, det, taken, ho, orphan, late, budget, poolGone, closeRet>>
+  /\ Sched(t)
 
 RetLock(t) ==
   /\ pc[t] = "ret_lock" /\ lock = NoTask
@@ -349,10 +375,12 @@ RetLock(t) ==
           /\ LetGo({obj[t]}) /\ Goto(t, "idle") /\ UNCHANGED idle
   /\ obj' = [obj EXCEPT ![t] = NoObj]
   /\ UNCHANGED <<sem, creating, maxSize, lock, users, mode, arg, cnt, susp, res, chain, ov, held, nextObj, taken, ho, orphan, late, budget, poolGone, closeRet>>
+  /\ Sched(t)
 
 RetAdd(t) ==
   /\ pc[t] = "ret_add" /\ SemRelease(1) /\ Goto(t, "idle")
   /\ UNCHANGED <<slots, users, obj, mode, arg, cnt, susp, res, chain, ov, gv>>
+  /\ Sched(t)
 
 ----------------------------------------------------------------------------
 (* Object::take -> detach_object                                           *)
@@ -364,11 +392,13 @@ StartTake(t, o) ==
      ELSE obj' = [obj EXCEPT ![t] = o] /\ Goto(t, "tk_users") /\ UNCHANGED orphan
   /\ SetRes(t, "none")
   /\ UNCHANGED <<sem, slots, users, mode, arg, cnt, susp, chain, ov, nextObj, det, ho, late, poolGone, closeRet, panicked>>
+  /\ Sched(t)
 
 TkUsers(t) ==
   /\ pc[t] = "tk_users" /\ users' = users - 1 /\ panicked' = (panicked \/ users = 0)
   /\ Goto(t, "tk_lock")
   /\ UNCHANGED <<sem, slots, obj, mode, arg, cnt, susp, res, chain, ov, held, nextObj, alive, det, taken, ho, orphan, late, budget, poolGone, closeRet>>
+  /\ Sched(t)
 
 \* lock; add_permits := size <= max_size; size -= 1; unlock; (no permit: detach at once)
 TkLock(t) ==
@@ -378,11 +408,13 @@ TkLock(t) ==
      THEN Goto(t, "tk_add") /\ UNCHANGED <<det, obj>>
      ELSE /\ det' = [det EXCEPT ![obj[t]] = @ + 1] /\ obj' = [obj EXCEPT ![t] = NoObj] /\ Goto(t, "idle")
   /\ UNCHANGED <<sem, idle, creating, maxSize, lock, users, mode, arg, cnt, susp, res, chain, ov, held, nextObj, alive, taken, ho, orphan, late, budget, poolGone, closeRet>>
+  /\ Sched(t)
 
 TkAdd(t) ==
   /\ pc[t] = "tk_add" /\ SemRelease(1)
   /\ det' = [det EXCEPT ![obj[t]] = @ + 1] /\ obj' = [obj EXCEPT ![t] = NoObj] /\ Goto(t, "idle")
   /\ UNCHANGED <<slots, users, mode, arg, cnt, susp, res, chain, ov, held, nextObj, alive, taken, ho, orphan, late, budget, poolGone, closeRet, panicked>>
+  /\ Sched(t)
 
 ----------------------------------------------------------------------------
 (* resize / close / retain                                                 *)
@@ -398,6 +430,7 @@ StartResize(t, n) ==
   /\ pc[t] = "idle" /\ ~poolGone /\ n \in ResizeTargets /\ Spend
   /\ Goto(t, "rs_lock") /\ arg' = [arg EXCEPT ![t] = n] /\ SetRes(t, "none")
   /\ UNCHANGED <<sem, slots, users, obj, mode, cnt, susp, chain, ov, held, nextObj, alive, det, taken, ho, orphan, late, poolGone, closeRet, panicked>>
+  /\ Sched(t)
 
 \* lock; closed? -> return; max_size = n; (equal: unlock, return)
 RsLock(t) ==
@@ -409,6 +442,7 @@ RsLock(t) ==
              THEN Goto(t, "rs_forget") /\ cnt' = [cnt EXCEPT ![t] = maxSize - arg[t]]
              ELSE Goto(t, "rs_grow") /\ cnt' = [cnt EXCEPT ![t] = arg[t] - maxSize]
   /\ UNCHANGED <<sem, idle, size, creating, users, obj, mode, arg, susp, res, chain, ov, gv>>
+  /\ Sched(t)
 
 \* one iteration of the permit-retiring loop; the last one also drains and unlocks
 RsForget(t) ==
@@ -420,16 +454,19 @@ RsForget(t) ==
           /\ UNCHANGED <<closed, waitq, handed>>
           /\ Drain(Surplus) /\ lock' = NoTask /\ Goto(t, "idle") /\ cnt' = [cnt EXCEPT ![t] = 0]
   /\ UNCHANGED <<creating, maxSize, users, obj, mode, arg, susp, res, chain, ov, held, nextObj, taken, ho, orphan, late, budget, poolGone, closeRet, panicked>>
+  /\ Sched(t)
 
 RsGrow(t) ==
   /\ pc[t] = "rs_grow" /\ SemRelease(cnt[t]) /\ lock' = NoTask /\ Goto(t, "idle")
   /\ cnt' = [cnt EXCEPT ![t] = 0]
   /\ UNCHANGED <<idle, size, creating, maxSize, users, obj, mode, arg, susp, res, chain, ov, gv>>
+  /\ Sched(t)
 
 StartClose(t) ==
   /\ AllowClose /\ pc[t] = "idle" /\ ~poolGone /\ Spend
   /\ Goto(t, "cl_lock") /\ SetRes(t, "none")
   /\ UNCHANGED <<sem, slots, users, obj, mode, arg, cnt, susp, chain, ov, held, nextObj, alive, det, taken, ho, orphan, late, poolGone, closeRet, panicked>>
+  /\ Sched(t)
 
 \* lock; semaphore.close(); max_size = 0; drop and detach every idle object; unlock
 ClLock(t) ==
@@ -439,15 +476,18 @@ ClLock(t) ==
   /\ closeRet' = TRUE /\ Goto(t, "idle")
   /\ late' = [u \in Tasks |-> late[u] \/ pc[u] \in {"g_users", "g_acq", "g_wait"}]
   /\ UNCHANGED <<creating, lock, users, obj, mode, arg, cnt, susp, res, chain, ov, held, nextObj, taken, ho, orphan, budget, poolGone, panicked>>
+  /\ Sched(t)
 
 StartRetain(t) ==
   /\ AllowRetain /\ pc[t] = "idle" /\ ~poolGone /\ Spend
   /\ Goto(t, "rt_status") /\ SetRes(t, "none")
   /\ UNCHANGED <<sem, slots, users, obj, mode, arg, cnt, susp, chain, ov, held, nextObj, alive, det, taken, ho, orphan, late, poolGone, closeRet, panicked>>
+  /\ Sched(t)
 
 RtStatus(t) ==
   /\ pc[t] = "rt_status" /\ lock = NoTask /\ Goto(t, "rt_lock")
   /\ UNCHANGED <<sem, slots, users, obj, mode, arg, cnt, susp, res, chain, ov, gv>>
+  /\ Sched(t)
 
 \* lock; walk the idle queue; every object the predicate rejects is removed, detached
 \* and handed to the caller; size -= removed; unlock.  keep = the predicate's answers.
@@ -460,13 +500,14 @@ RtWalk(t, keep) ==
      /\ taken' = taken \cup rm /\ alive' = alive \ rm
   /\ Goto(t, "idle")
   /\ UNCHANGED <<sem, creating, maxSize, lock, users, obj, mode, arg, cnt, susp, res, chain, ov, held, nextObj, ho, orphan, late, budget, poolGone, closeRet, panicked>>
+  /\ Sched(t)
 
 \* the last Pool handle is dropped (no operation in progress): idle objects are
 \* destroyed with the pool; objects that are out keep only a Weak reference
 DropPool ==
   /\ AllowDropPool /\ ~poolGone /\ \A t \in Tasks : pc[t] = "idle"
   /\ poolGone' = TRUE /\ alive' = alive \ SeqSet(idle) /\ orphan' = orphan \cup SeqSet(idle) /\ idle' = <<>>
-  /\ UNCHANGED <<sem, size, creating, maxSize, lock, users, tv, ov, held, nextObj, det, taken, ho, late, budget, closeRet, panicked>>
+  /\ UNCHANGED <<sem, size, creating, maxSize, lock, users, tv, ov, held, nextObj, det, taken, ho, late, budget, closeRet, panicked, running>>
 
 ----------------------------------------------------------------------------
 Step(t) ==
@@ -476,23 +517,15 @@ Step(t) ==
   \/ \E out \in {"ok", "err", "panic"} : Resume(t, out)
   \/ Cancel(t) \/ Expire(t)
   \/ CSize(t) \/ CUnres(t) \/ UDrop(t) \/ GExit(t) \/ XUsers(t)
-  \/ \E o \in held[t] : StartReturn(t, o) \/ StartTake(t, o)
+  \/ \E o \in Objs : StartReturn(t, o) \/ StartTake(t, o)
   \/ RetUsers(t) \/ RetLock(t) \/ RetAdd(t)
   \/ TkUsers(t) \/ TkLock(t) \/ TkAdd(t)
   \/ \E n \in ResizeTargets : StartResize(t, n)
   \/ RsLock(t) \/ RsForget(t) \/ RsGrow(t)
   \/ StartClose(t) \/ ClLock(t)
-  \/ StartRetain(t) \/ RtStatus(t) \/ \E keep \in SUBSET SeqSet(idle) : RtWalk(t, keep)
+  \/ StartRetain(t) \/ RtStatus(t) \/ \E keep \in SUBSET Objs : RtWalk(t, keep)
 
-\* a task that has yielded: finished its operation, waits for a permit, or waits for a call
-Yielded(t) == pc'[t] = "idle" \/ pc'[t] = "g_wait" \/ susp'[t]
-
-Next ==
-  \/ \E t \in Tasks :
-       /\ running \in {NoTask, t}
-       /\ Step(t)
-       /\ running' = IF ThreadLevel \/ Yielded(t) THEN NoTask ELSE t
-  \/ DropPool /\ UNCHANGED running
+Next == (\E t \in Tasks : Step(t)) \/ DropPool
 
 Spec == Init /\ [][Next]_vars
 
